@@ -495,6 +495,11 @@ where
 
 			for rp in rps.into_iter() {
 				let id = rp.id().try_parse_inner_as_number()?;
+				// Only an ID of the kind this client uses can be the ID of one of its requests
+				// (`"1"` does not answer the request `1`).
+				if *rp.id() != self.id_manager.as_id_kind().into_id(id) {
+					return Err(InvalidRequestId::NotPendingRequest(rp.id().to_string()).into());
+				}
 
 				let res = match ResponseSuccess::try_from(rp.into_inner()) {
 					Ok(r) => {
